@@ -321,6 +321,8 @@ pub struct World {
     pub mode: Mode,
     pub trace: Vec<Decision>,
     pub out: String,
+    /// files the generator wrote (fs::write / File::create), captured instead of written
+    pub written: BTreeMap<String, Vec<u8>>,
     pub log: Fnv,
     pub events: u64,
     pub stats: RunStats,
@@ -352,12 +354,17 @@ pub fn uninstall() -> World {
     WORLD.with(|c| c.borrow_mut().take()).expect("no world installed")
 }
 
+/// set when a seam is reached from a thread the simulator does not own (the generator spawned
+/// threads): the harness then reports a harness error instead of a verdict
+pub static FOREIGN_THREAD_SEAM_USE: std::sync::atomic::AtomicBool = std::sync::atomic::AtomicBool::new(false);
+
 pub fn with<R>(f: impl FnOnce(&mut World) -> R) -> R {
     WORLD.with(|c| {
         let mut b = c.borrow_mut();
-        let w = b
-            .as_mut()
-            .expect("simulation seam used outside a simulated run");
+        let Some(w) = b.as_mut() else {
+            FOREIGN_THREAD_SEAM_USE.store(true, std::sync::atomic::Ordering::SeqCst);
+            panic!("simulation seam used outside a simulated run (generator code running on a thread the simulator does not own)");
+        };
         f(w)
     })
 }
@@ -369,6 +376,7 @@ impl World {
             mode,
             trace: vec![],
             out: String::new(),
+            written: BTreeMap::new(),
             log: Fnv::default(),
             events: 0,
             stats: RunStats::default(),
